@@ -66,10 +66,13 @@ def run(ctx):
     wd = ctx.workdir
     emb = embedder()
     streams = []
-    g = Gen(ctx.seed); streams.append(("mixed", g.mixed(10000 if q else 200000, multi=True), False))
-    g = Gen(ctx.seed + 1); g.ascii_only = True; streams.append(("ascii", g.mixed(10000 if q else 200000, multi=False), True))
-    streams.append(("text", props.text_stream(ctx.seed + 2, 8000 if q else 150000, toggles=True), False))
-    streams.append(("chars", gen.sweep_chars(4 if q else 1, ctx.seed), False))
+    g = Gen(ctx.seed); streams.append(("mixed", g.mixed(8000 if q else 200000, multi=True), False))
+    g = Gen(ctx.seed + 1); g.ascii_only = True; streams.append(("ascii", g.mixed(8000 if q else 200000, multi=False), True))
+    streams.append(("text", props.text_stream(ctx.seed + 2, 6000 if q else 150000, toggles=True), False))
+    streams.append(("chars", gen.sweep_chars(6 if q else 1, ctx.seed), False))
+    # few cells, control codes, re-deliveries at different levels: pairs whose two cells hold different levels
+    # (seed C20-b was missed without this stream)
+    streams.append(("textfew", props.text_stream(ctx.seed + 3, 8000 if q else 200000, few_cells=True, toggles=True), False))
     for sname, ops, ascii_only in streams:
         # valid strings only (malformed strings are C14's business and identical across builds anyway)
         runs = {}
